@@ -33,6 +33,7 @@ var c12PatternSets = [][]string{
 	{"other.org", "*.example.com", "example.com:*"},
 	{"evil.com"},
 	{"EXAMPLE.com", "*.Example.Com"},
+	{"https://*.example.com", "http://example.com"}, // host patterns never contain a scheme: these match no host
 	{"[a-z.example.com"},           // malformed glob: can authorise nothing
 	{"evil.com", "[bad", "other*"}, // a malformed pattern after a well formed one
 }
@@ -41,7 +42,7 @@ func init() {
 	fw.Register(&fw.Prop{
 		ID:    "C12",
 		Level: "exploration",
-		Rule: "cases = the FULL cross product (Host header (6) x pattern set (10, two of them with a malformed glob) x InsecureSkipVerify (2)) x an origin grammar built from parts: scheme (8 incl. none and 'null') x userinfo tricks (4) x host (same, mixed case, prefix/suffix/sub-domain look-alikes, trailing dot, foreign, IP, IPv6, empty) x port (none, default, other) x path / query / fragment containing the host; " +
+		Rule: "cases = the FULL cross product (Host header (6) x pattern set (11, two of them with a malformed glob, one with scheme-prefixed patterns) x InsecureSkipVerify (2)) x an origin grammar built from parts: scheme (8 incl. none and 'null') x userinfo tricks (4) x host (same, mixed case, prefix/suffix/sub-domain look-alikes, trailing dot, foreign, IP, IPv6, empty) x port (none, default, other) x path / query / fragment containing the host; " +
 			"the authority an origin names is known by construction and patterns are matched by the harness's own glob; verdicts are given where 'host' is unambiguous (see assumptions). distinct key = (verdict, host relation, port relation, pattern relation, where the look-alike sits)",
 		Exhaustive:  func(string) bool { return true },
 		Gen:         c12Gen,
@@ -139,8 +140,8 @@ func c12Run(r *fw.R, d c12Desc) {
 		hosts = append(hosts, part{string(reqHost[len(reqHost)-2]), "member-of-bracket-class"})
 	}
 	paths := []part{{"", ""}, {"/", "/"}, {"/" + base, "host-in-path"}, {"/x/" + base + "/", "host-in-path2"}}
-	queries := []part{{"", ""}, {"?" + base, "host-in-query"}, {"?next=https://" + base + "/", "url-in-query"}}
-	frags := []part{{"", ""}, {"#" + base, "host-in-fragment"}, {"#@" + base, "at-host-in-fragment"}}
+	queries := []part{{"", ""}, {"?" + base, "host-in-query"}, {"?next=https://" + base + "/", "url-in-query"}, {"?x." + base, "subdomain-in-query"}}
+	frags := []part{{"", ""}, {"#" + base, "host-in-fragment"}, {"#@" + base, "at-host-in-fragment"}, {"#x." + base, "subdomain-in-fragment"}}
 
 	// no Origin header at all: always accepted
 	c12One(r, d, "", false, 1, "no-origin", "")
@@ -245,7 +246,7 @@ func c12Run(r *fw.R, d c12Desc) {
 								}
 								where := ""
 								for _, t := range []string{us.tag, pa.tag, qu.tag, fr.tag} {
-									if strings.Contains(t, "host") || strings.Contains(t, "url") {
+									if strings.Contains(t, "host") || strings.Contains(t, "url") || strings.Contains(t, "subdomain") {
 										where += "+" + t
 									}
 								}
